@@ -131,34 +131,35 @@ Definition out_class {S R} (out : outcome) (py : (S * R) + PyList.pyerr) : Prop 
   end.
 
 Section Step.
-Variables (q : quirks) (r : nat) (tid : N) (fl : flags).
+Variables (q : quirks) (ps : pos) (tid : N) (pa : option N) (fl : flags).
 Hypothesis NQ : no_quirks q.
 
 Theorem step_list_refines : forall st its sc o lo,
-  wfs st -> root_is st r tid KList fl its -> clean its -> permits sc fl ->
+  wfs st -> at_is st ps tid KList pa fl its -> clean its -> anc_clean st ps -> permits sc fl ->
   vplain_lop (evals its) o = true -> vlop_of o = Some lo ->
   exists its',
-    root_is (fst (step q st (mkSop sc (r, []) o))) r tid KList fl its' /\ clean its' /\
+    at_is (fst (step q st (mkSop sc ps o))) ps tid KList pa fl its' /\ clean its' /\ anc_clean (fst (step q st (mkSop sc ps o))) ps /\
     evals its' = PyList.lstate pv_pyeq (evals its) lo /\
-    out_class (snd (step q st (mkSop sc (r, []) o))) (py_lstep (evals its) lo) /\
+    out_class (snd (step q st (mkSop sc ps o))) (py_lstep (evals its) lo) /\
     (* the value of the call, relative to the state the operation produced (before the end-of-step gc) *)
-    exists ro st1, resolve_op st o = Some ro /\ exec q sc st (r, []) tid KList [] fl its ro = (st1, snd (step q st (mkSop sc (r, []) o))) /\
-                   match py_lstep (evals its) lo with inl (_, ret) => ret_agrees st1 (snd (step q st (mkSop sc (r, []) o))) ret | inr _ => True end.
+    exists ro st1, resolve_op st o = Some ro /\ exec q sc st ps tid KList (snd ps) fl its ro = (st1, snd (step q st (mkSop sc ps o))) /\
+                   match py_lstep (evals its) lo with inl (_, ret) => ret_agrees st1 (snd (step q st (mkSop sc ps o))) ret | inr _ => True end.
 Proof.
-  intros st its sc o lo W R C PM P L.
+  intros st its sc o lo W R C A PM P L.
   destruct (resolve_lop st its o lo P L) as (ro & RO & PL & LO & KO).
-  assert (G : get_at st (o_pos (mkSop sc (r, []) o)) = Some (Node tid KList None [] fl its)) by (simpl; rewrite get_at_root; exact R).
-  assert (KO' : kind_ok KList (o_op (mkSop sc (r, []) o)) = true).
+  assert (G : get_at st (o_pos (mkSop sc ps o)) = Some (Node tid KList pa (snd ps) fl its)) by exact R.
+  assert (KO' : kind_ok KList (o_op (mkSop sc ps o)) = true).
   { simpl. destruct o; simpl in *; try discriminate; auto; destruct (resolve st v); simpl in RO; inv RO; auto. }
-  rewrite (step_unfold q st _ tid KList None [] fl its ro G KO' RO). simpl.
-  destruct (exec q sc st (r, []) tid KList [] fl its ro) as [st1 out] eqn:E. simpl.
-  pose proof (exec_list_refines q sc r tid fl NQ st its ro lo st1 out W R C PM PL LO E) as H.
-  pose proof (get_root_lt _ _ _ R) as LT.
+  rewrite (step_unfold q st _ tid KList pa (snd ps) fl its ro G KO' RO). simpl.
+  destruct (exec q sc st ps tid KList (snd ps) fl its ro) as [st1 out] eqn:E. simpl.
+  pose proof (exec_list_refines q sc ps tid pa fl NQ st its ro lo st1 out W R C A PM PL LO E) as H.
+  pose proof (get_at_lt _ _ _ R) as LT.
   unfold PyList.lstate. fold (py_lstep (evals its) lo).
   destruct (py_lstep (evals its) lo) as [[l' ret]|e].
-  - destruct H as [(its' & R' & C' & E' & K') RA].
+  - destruct H as [(its' & R' & C' & E' & K' & A' & W') RA].
     exists its'. repeat split; auto.
-    + apply get_root_gc; auto.
+    + apply get_at_gc; auto.
+    + eapply anc_clean_gc; eauto.
     + destruct out; simpl; auto. destruct ret; simpl in RA; try contradiction; try discriminate;
         repeat match goal with H : exists _, _ |- _ => destruct H end; intuition discriminate.
     + exists ro, st1. auto.
@@ -167,29 +168,30 @@ Proof.
 Qed.
 
 Theorem step_dict_refines : forall st its sc o d,
-  wfs st -> root_is st r tid KDict fl its -> clean its -> permits sc fl ->
+  wfs st -> at_is st ps tid KDict pa fl its -> clean its -> anc_clean st ps -> permits sc fl ->
   vplain_dop o = true -> vdop_of o = Some d ->
   exists its',
-    root_is (fst (step q st (mkSop sc (r, []) o))) r tid KDict fl its' /\ clean its' /\
+    at_is (fst (step q st (mkSop sc ps o))) ps tid KDict pa fl its' /\ clean its' /\ anc_clean (fst (step q st (mkSop sc ps o))) ps /\
     eitems its' = PyDict.dstate key_eqb pv_pyeq (eitems its) d /\
-    out_class (snd (step q st (mkSop sc (r, []) o))) (py_dstep (eitems its) d) /\
-    exists ro st1, resolve_op st o = Some ro /\ exec q sc st (r, []) tid KDict [] fl its ro = (st1, snd (step q st (mkSop sc (r, []) o))) /\
-                   match py_dstep (eitems its) d with inl (_, ret) => dret_agrees st1 (snd (step q st (mkSop sc (r, []) o))) ret | inr _ => True end.
+    out_class (snd (step q st (mkSop sc ps o))) (py_dstep (eitems its) d) /\
+    exists ro st1, resolve_op st o = Some ro /\ exec q sc st ps tid KDict (snd ps) fl its ro = (st1, snd (step q st (mkSop sc ps o))) /\
+                   match py_dstep (eitems its) d with inl (_, ret) => dret_agrees st1 (snd (step q st (mkSop sc ps o))) ret | inr _ => True end.
 Proof.
-  intros st its sc o d W R C PM P L.
+  intros st its sc o d W R C A PM P L.
   destruct (resolve_dop st o d P L) as (ro & RO & PL & LO & KO).
-  assert (G : get_at st (o_pos (mkSop sc (r, []) o)) = Some (Node tid KDict None [] fl its)) by (simpl; rewrite get_at_root; exact R).
-  assert (KO' : kind_ok KDict (o_op (mkSop sc (r, []) o)) = true).
+  assert (G : get_at st (o_pos (mkSop sc ps o)) = Some (Node tid KDict pa (snd ps) fl its)) by exact R.
+  assert (KO' : kind_ok KDict (o_op (mkSop sc ps o)) = true).
   { simpl. destruct o; simpl in *; try discriminate; auto; destruct (resolve st v); simpl in RO; inv RO; auto. }
-  rewrite (step_unfold q st _ tid KDict None [] fl its ro G KO' RO). simpl.
-  destruct (exec q sc st (r, []) tid KDict [] fl its ro) as [st1 out] eqn:E. simpl.
-  pose proof (exec_dict_refines q sc r tid fl NQ st its ro d st1 out W R C PM PL LO E) as H.
-  pose proof (get_root_lt _ _ _ R) as LT.
+  rewrite (step_unfold q st _ tid KDict pa (snd ps) fl its ro G KO' RO). simpl.
+  destruct (exec q sc st ps tid KDict (snd ps) fl its ro) as [st1 out] eqn:E. simpl.
+  pose proof (exec_dict_refines q sc ps tid pa fl NQ st its ro d st1 out W R C A PM PL LO E) as H.
+  pose proof (get_at_lt _ _ _ R) as LT.
   unfold PyDict.dstate. fold (py_dstep (eitems its) d).
   destruct (py_dstep (eitems its) d) as [[d' ret]|e].
-  - destruct H as [(its' & R' & C' & E' & K') RA].
+  - destruct H as [(its' & R' & C' & E' & K' & A' & W') RA].
     exists its'. repeat split; auto.
-    + apply get_root_gc; auto.
+    + apply get_at_gc; auto.
+    + eapply anc_clean_gc; eauto.
     + destruct out; simpl; auto. destruct ret; simpl in RA; try contradiction; try discriminate;
         repeat match goal with H : exists _, _ |- _ => destruct H | H : _ \/ _ |- _ => destruct H end; intuition discriminate.
     + exists ro, st1. auto.
@@ -199,7 +201,7 @@ Qed.
 End Step.
 
 (* --- histories ------------------------------------------------------------------------------------------------------------------------ *)
-(* a history on one root container: every operation is plain with respect to the contents it meets (followed on the Python
+(* a history on one container: every operation is plain with respect to the contents it meets (followed on the Python
    side), and the target lets the write through *)
 Fixpoint lhist_ok (fl : flags) (l : list pv) (h : list (scope * op value)) : Prop :=
   match h with
@@ -225,55 +227,55 @@ Fixpoint dhist_py (d : list (key * pv)) (h : list (scope * op value)) : list (ke
   | [] => d
   | (_, o) :: h' => match vdop_of o with Some po => dhist_py (PyDict.dstate key_eqb pv_pyeq d po) h' | None => d end
   end.
-Definition on_root (r : nat) (h : list (scope * op value)) : list sop := map (fun so => mkSop (fst so) (r, []) (snd so)) h.
+Definition on_pos (ps : pos) (h : list (scope * op value)) : list sop := map (fun so => mkSop (fst so) ps (snd so)) h.
 
 Section History.
-Variables (q : quirks) (r : nat) (tid : N) (fl : flags).
+Variables (q : quirks) (ps : pos) (tid : N) (pa : option N) (fl : flags).
 Hypothesis NQ : no_quirks q.
 
 Theorem history_list_refines : forall h st its,
-  wfs st -> root_is st r tid KList fl its -> clean its -> lhist_ok fl (evals its) h ->
-  exists its', root_is (run_ops q st (on_root r h)) r tid KList fl its' /\ clean its' /\ wfs (run_ops q st (on_root r h)) /\
-               evals its' = lhist_py (evals its) h.
+  wfs st -> at_is st ps tid KList pa fl its -> clean its -> anc_clean st ps -> lhist_ok fl (evals its) h ->
+  exists its', at_is (run_ops q st (on_pos ps h)) ps tid KList pa fl its' /\ clean its' /\ anc_clean (run_ops q st (on_pos ps h)) ps /\
+               wfs (run_ops q st (on_pos ps h)) /\ evals its' = lhist_py (evals its) h.
 Proof.
-  induction h as [|[sc o] h IH]; intros st its W R C OK; simpl in *.
+  induction h as [|[sc o] h IH]; intros st its W R C A OK; simpl in *.
   - exists its; auto.
   - destruct OK as (PM & P & lo & L & OK'). rewrite L.
-    destruct (step_list_refines q r tid fl NQ st its sc o lo W R C PM P L) as (its1 & R1 & C1 & E1 & _).
+    destruct (step_list_refines q ps tid pa fl NQ st its sc o lo W R C A PM P L) as (its1 & R1 & C1 & A1 & E1 & _).
     unfold stepS at 1. fold (run_ops q).
-    assert (W1 : wfs (fst (step q st (mkSop sc (r, []) o)))) by (apply step_wfs; auto).
-    rewrite <- E1 in OK'. destruct (IH _ its1 W1 R1 C1 OK') as (its' & R' & C' & W' & E').
+    assert (W1 : wfs (fst (step q st (mkSop sc ps o)))) by (apply step_wfs; auto).
+    rewrite <- E1 in OK'. destruct (IH _ its1 W1 R1 C1 A1 OK') as (its' & R' & C' & A' & W' & E').
     exists its'. repeat split; auto. rewrite E', E1. reflexivity.
 Qed.
 
 Theorem history_dict_refines : forall h st its,
-  wfs st -> root_is st r tid KDict fl its -> clean its -> dhist_ok fl (eitems its) h ->
-  exists its', root_is (run_ops q st (on_root r h)) r tid KDict fl its' /\ clean its' /\ wfs (run_ops q st (on_root r h)) /\
-               eitems its' = dhist_py (eitems its) h.
+  wfs st -> at_is st ps tid KDict pa fl its -> clean its -> anc_clean st ps -> dhist_ok fl (eitems its) h ->
+  exists its', at_is (run_ops q st (on_pos ps h)) ps tid KDict pa fl its' /\ clean its' /\ anc_clean (run_ops q st (on_pos ps h)) ps /\
+               wfs (run_ops q st (on_pos ps h)) /\ eitems its' = dhist_py (eitems its) h.
 Proof.
-  induction h as [|[sc o] h IH]; intros st its W R C OK; simpl in *.
+  induction h as [|[sc o] h IH]; intros st its W R C A OK; simpl in *.
   - exists its; auto.
   - destruct OK as (PM & P & po & L & OK'). rewrite L.
-    destruct (step_dict_refines q r tid fl NQ st its sc o po W R C PM P L) as (its1 & R1 & C1 & E1 & _).
+    destruct (step_dict_refines q ps tid pa fl NQ st its sc o po W R C A PM P L) as (its1 & R1 & C1 & A1 & E1 & _).
     unfold stepS at 1. fold (run_ops q).
-    assert (W1 : wfs (fst (step q st (mkSop sc (r, []) o)))) by (apply step_wfs; auto).
-    rewrite <- E1 in OK'. destruct (IH _ its1 W1 R1 C1 OK') as (its' & R' & C' & W' & E').
+    assert (W1 : wfs (fst (step q st (mkSop sc ps o)))) by (apply step_wfs; auto).
+    rewrite <- E1 in OK'. destruct (IH _ its1 W1 R1 C1 A1 OK') as (its' & R' & C' & A' & W' & E').
     exists its'. repeat split; auto. rewrite E', E1. reflexivity.
 Qed.
 
 (* in terms of the erasure of the whole container *)
 Corollary history_list_erase : forall h st its,
-  wfs st -> root_is st r tid KList fl its -> clean its -> lhist_ok fl (evals its) h ->
-  option_map erase (get_root (run_ops q st (on_root r h)) r) = Some (plist (lhist_py (evals its) h)).
+  wfs st -> at_is st ps tid KList pa fl its -> clean its -> anc_clean st ps -> lhist_ok fl (evals its) h ->
+  option_map erase (get_at (run_ops q st (on_pos ps h)) ps) = Some (plist (lhist_py (evals its) h)).
 Proof.
-  intros. destruct (history_list_refines h st its H H0 H1 H2) as (its' & R' & C' & W' & E').
-  rewrite R'. simpl. f_equal. rewrite <- E'. eapply erase_list_node; eauto.
+  intros. destruct (history_list_refines h st its H H0 H1 H2 H3) as (its' & R' & C' & A' & W' & E').
+  rewrite R'. simpl. f_equal. rewrite <- E'. eapply erase_list_at; eauto.
 Qed.
 Corollary history_dict_erase : forall h st its,
-  wfs st -> root_is st r tid KDict fl its -> clean its -> dhist_ok fl (eitems its) h ->
-  option_map erase (get_root (run_ops q st (on_root r h)) r) = Some (PNode KDict (dhist_py (eitems its) h)).
+  wfs st -> at_is st ps tid KDict pa fl its -> clean its -> anc_clean st ps -> dhist_ok fl (eitems its) h ->
+  option_map erase (get_at (run_ops q st (on_pos ps h)) ps) = Some (PNode KDict (dhist_py (eitems its) h)).
 Proof.
-  intros. destruct (history_dict_refines h st its H H0 H1 H2) as (its' & R' & C' & W' & E').
+  intros. destruct (history_dict_refines h st its H H0 H1 H2 H3) as (its' & R' & C' & A' & W' & E').
   rewrite R'. simpl. f_equal. rewrite <- E'. reflexivity.
 Qed.
 End History.
